@@ -335,8 +335,14 @@ func (m *model) Layout(W float64) (lines []Line, guard string) {
 				_ = inBox
 				// finding D12: the preserved-line-break flag of a child that is then moved to the
 				// next line stays set, and the line is not justified
-				if f && m.items[q-1].tn >= 0 && m.p.Align == "justify" {
+				if f && m.p.Align == "justify" {
 					guards["D12"] = true
+				}
+				// finding D16: when the rest of an inline box fits without its end spacing but not
+				// with it, its last child is split again against (available - end spacing) and
+				// that reduced width is applied to a fragment that does not hold the box's end
+				if m.endSpacingResplit(pos, end, x, avail) {
+					guards["D16"] = true
 				}
 				break
 			}
@@ -384,12 +390,33 @@ func (m *model) Layout(W float64) (lines []Line, guard string) {
 	if len(lines) > 0 {
 		lines[len(lines)-1].Last = true
 	}
-	for _, g := range []string{"D2", "D6", "D10", "D12"} {
+	for _, g := range []string{"D2", "D6", "D10", "D12", "D16"} {
 		if guards[g] && !lifted(g) {
 			return lines, g
 		}
 	}
 	return lines, ""
+}
+
+// endSpacingResplit reports the D16 configuration at a soft break before items[end]: an end edge
+// with spacing lies ahead on what would be the same line without that spacing, and the line built
+// so far (items[pos:end], trailing spaces excluded) is wider than available - spacing.
+func (m *model) endSpacingResplit(pos, end int, x, avail float64) bool {
+	tsp, _, _ := m.trailingSpace(pos, end)
+	used := x - tsp
+	for k := end; k < len(m.items); k++ {
+		it := m.items[k]
+		if it.k == 'n' {
+			return false
+		}
+		if it.k == 'x' && it.w > 0 {
+			_, ns := m.widths(end, k)
+			if x+ns <= avail+eps && used > avail-it.w+eps {
+				return true
+			}
+		}
+	}
+	return false
 }
 
 // trailingSpace returns the width of the space ending items[p:q] (end edges skipped) and whether
